@@ -59,7 +59,7 @@ class Router:
                 if not device == sender and device.accepts(message.device):
                     device.message_from_client(message)
 
-        if message.from_device:
+        if message.from_device and (message.from_client or sender not in self.clients):
             for client in self.clients:
                 if not client == sender:
                     device_name = getattr(message, "device")
